@@ -264,7 +264,7 @@ func runSender(ops []sop, hist []int, trace bool) (viol, key string, steps int) 
 // C12: sender side (sequential histories here; the interleaving of the sending
 // call with the arrival of the acknowledgement is explored by c12sched).
 func C12(c *core.Ctx) {
-	c.Rep.Bound = "HIST, client role: Publish QoS 0/1/2, Subscribe, Unsubscribe, Ping calls and peer acknowledgements (PUBACK, PUBREC, PUBCOMP, SUBACK, UNSUBACK for the oldest or the newest outstanding request, PINGRESP), BFS de-duplicated on the open-request states to depth 6 (quick) / 8 (thorough), every sequence to depth 4/5; SCHED: one API call racing its own acknowledgement, all interleavings with <= 2 (quick) / 3 (thorough) preemptions; broker role: two publishers with equal packet ids towards one non-acknowledging subscriber"
+	c.Rep.Bound = "HIST, client role: Publish QoS 0/1/2, Subscribe, Unsubscribe, Ping calls and peer acknowledgements (PUBACK, PUBREC, PUBCOMP, SUBACK, UNSUBACK for the oldest or the newest outstanding request, PINGRESP), BFS de-duplicated on the open-request states to depth 6 (quick) / 8 (thorough), every sequence to depth 4/5; SCHED: one API call racing its own acknowledgement, all interleavings with <= 2 (quick) / 3 (thorough) preemptions; broker role: two publishers with equal packet ids towards one non-acknowledging subscriber; every sequence to depth 5 (quick) / 6 (thorough) of QoS 1/2 publishes and the subscriber's PUBREC / repeated PUBREC / PUBCOMP / PUBACK for the oldest or newest delivery awaiting it"
 	c.Rep.Rule = "every PUBREC is answered by PUBREL with the same id; each completion callback fires exactly once, never before the terminal acknowledgement was sent by the peer, and at quiescence has fired once that acknowledgement and those of all earlier requests of the same kind were sent; identifiers of requests simultaneously in flight are non-zero and pairwise distinct"
 	ops := senderOps()
 	if c.Replay != nil {
@@ -279,6 +279,7 @@ func C12(c *core.Ctx) {
 		}
 		c12sched(c)
 		c12broker(c)
+		c12brokerFlow(c)
 		return
 	}
 	d1, d2 := 6, 4
@@ -316,6 +317,7 @@ func C12(c *core.Ctx) {
 	}
 	c12sched(c)
 	c12broker(c)
+	c12brokerFlow(c)
 }
 
 func init() { core.Register("C12", C12) }
